@@ -11,7 +11,7 @@ Tokens == { <<"{", "{", "T", "1", "|", "x", "}", "}">>, <<"{", "{", "{", "1", "}
 RECURSIVE Flat(_)
 Flat(ts) == IF ts = <<>> THEN <<>> ELSE Head(ts) \o Flat(Tail(ts))
 Payloads == { Flat(ts) : ts \in UNION { [1..n -> Tokens] : n \in 1..MaxTok } }
-Contexts == {"top", "targ", "link", "list", "cell"}
+Contexts == {"top", "targ", "link", "list", "cell", "multi", "upper"}
 
 \* comment documents: text / comment pieces; comment payloads avoid "-->" and nowiki tags
 TextPieces == { <<"a">>, <<"b", "NL">>, <<"NL">>, <<"*", "SP", "c">>, <<"{", "{", "T", "1", "|", "x", "}", "}">>, <<"NL", "=", "=", "h", "=", "=", "NL">>, <<>> }
